@@ -181,9 +181,22 @@ func exec(p *tc.TXPool, u *universe, c *call, variant uint64) {
 	normalize(c)
 }
 
-func randomCall(r *vio.RNG, ntx, maxH int) *call {
+func randomCall(r *vio.RNG, ntx, maxH int, hot bool) *call {
 	c := &call{}
 	name := func() string { return fmt.Sprintf("t%d", 1+r.Intn(ntx)) }
+	if hot { // contention on one or two hashes: adds and removals of the same transaction race with each other
+		switch k := r.Intn(10); {
+		case k < 5:
+			c.Op, c.T, c.H = "add", name(), r.Intn(maxH+1)
+		case k < 8:
+			c.Op, c.T = "del", name()
+		case k < 9:
+			c.Op = "count"
+		default:
+			c.Op, c.T = "status", name()
+		}
+		return c
+	}
 	list := func() []string {
 		n := r.Intn(4)
 		var l []string
@@ -216,13 +229,16 @@ func randomCall(r *vio.RNG, ntx, maxH int) *call {
 }
 
 // linRecord: nh histories; in each, ng goroutines run nops random calls on one real TXPool concurrently.
-func linRecord(nh, ng, nops, maxtx int) {
+func linRecord(nh, ng, nops, maxtx int, hot bool) {
 	config.DefConfig.Consensus.MaxTxInBlock = uint(maxtx)
 	rng := vio.NewRNG(vio.Seed()*7919 + uint64(ng*100+nops))
 	u := newUniverse(12, 1)
 	overlaps := 0
 	for h := 0; h < nh; h++ {
 		ntx := 2 + rng.Intn(5) // small universes make conflicting calls likely
+		if hot {
+			ntx = 1 + rng.Intn(2)
+		}
 		p := &tc.TXPool{}
 		p.Init()
 		var stamp int64
@@ -230,7 +246,7 @@ func linRecord(nh, ng, nops, maxtx int) {
 		vars := make([][]uint64, ng)
 		for g := 0; g < ng; g++ {
 			for i := 0; i < nops; i++ {
-				c := randomCall(rng, ntx, 3)
+				c := randomCall(rng, ntx, 3, hot)
 				c.G = g + 1
 				progs[g] = append(progs[g], c)
 				vars[g] = append(vars[g], rng.U64())
@@ -244,7 +260,7 @@ func linRecord(nh, ng, nops, maxtx int) {
 				defer wg.Done()
 				<-start
 				for i, c := range progs[g] {
-					if vars[g][i]&0x300 == 0 {
+					if !hot && vars[g][i]&0x300 == 0 {
 						runtime.Gosched()
 					}
 					c.S = atomic.AddInt64(&stamp, 1)
